@@ -75,7 +75,7 @@ struct SeqEngine : Engine
     {
         Ctx c(st, log);
         g_req_per_op.clear();
-        g_cmp_forbid_lo = 0; g_cmp_forbid_len = 0; g_cmp_forbidden_hit = false;
+        g_cmp_forbid_lo = 0; g_cmp_forbid_len = 0; g_cmp_forbidden_hit = false; g_cmp_key = nullptr; g_cmp_key_on_left = false;
         int const target = (int)p.knob("target", 0);
         // Bernoulli multi-fault configuration
         int64_t const bern = p.knob("bern_permille", 0);
